@@ -16,6 +16,7 @@ import (
 	"time"
 
 	"golang.org/x/telemetry/internal/verif/vformat"
+	"golang.org/x/telemetry/internal/verif/vgen"
 	"golang.org/x/telemetry/internal/verif/vhook"
 	"golang.org/x/telemetry/internal/verif/vstats"
 	"pgregory.net/rapid"
@@ -67,6 +68,11 @@ func TestVerifC04BusyNeighbours(t *testing.T) {
 		for p := range progs {
 			for j, n := 0, rapid.IntRange(3, 10).Draw(t, "nops"); j < n; j++ {
 				o := op{mk(fmt.Sprintf("o%d.%d/", p, j), long("otherLen")), uint64(rapid.IntRange(1, 9).Draw(t, "n"))}
+				if rapid.IntRange(0, 3).Draw(t, "sameBucket") == 0 {
+					// a short name in the victim's hash bucket: its record, placed wherever the file has grown to,
+					// becomes the head of the chain the victim walks
+					o.name = vgen.Colliding(victimName, p*100+j)
+				}
 				progs[p] = append(progs[p], o)
 				want[o.name] = o.n
 			}
